@@ -55,6 +55,8 @@ pub struct ExploreStats {
     pub timers: u64,
     pub wall_s: f64,
     pub bound: u32,
+    /// one explored schedule with the maximum number of deviations: (choices, alternatives per point, observation)
+    pub example: Option<(Vec<u8>, Vec<u8>, Vec<String>)>,
 }
 
 #[derive(Clone, Debug)]
@@ -168,6 +170,9 @@ pub fn explore(
                         let e = stats.outcomes.entry(oh).or_insert_with(|| (0, r.obs.clone()));
                         e.0 += 1;
                         let choices: Vec<u8> = r.points.iter().map(|p| p.choice).collect();
+                        if cost == cfg.bound && matches!(r.status, Status::Ok) && stats.example.as_ref().map(|e| e.0.len() < choices.len()).unwrap_or(true) {
+                            stats.example = Some((choices.clone(), r.points.iter().map(|p| p.n).collect(), r.obs.clone()));
+                        }
                         if let Status::Machinery(m) = &r.status {
                             stats.machinery_errors.push(format!("{} (schedule {:?})", m, choices));
                             stop = true;
